@@ -103,6 +103,8 @@ def run(ctx):
     ctx.rule("R17.i", "__setstate__, interpreted abstractly on a saved watcher table in which one watcher is listed under two parameters next to a second watcher: every saved watcher is "
                       "re-created exactly once (the same new object wherever the old one was listed -- batched dispatch tells watchers apart by identity), in the saved order, bound to the copy, "
                       "with a method-caller callback rebuilt for the copy and a foreign callback kept", floor=1)
+    ctx.rule("R17.u", "a Parameterized subclass with a __getstate__ of its own hands on the saved private state unchanged (no store into the value / Parameter / reference / watcher tables, no "
+                      "replacement of `_param__private` in the state)", floor=1)
     ctx.rule("R17.r", "reduce hooks build new objects: every __reduce__ / __reduce_ex__ of param / numbergen hands the state to its reconstructor (>= 3 elements) or delegates to super(); a "
                       "by-reference answer `(function, args)` is accepted only under an identity test of self", floor=1)
     ctx.rule("R17.j", "copy-only hooks share nothing: every __deepcopy__ / __copy__ defined in param or numbergen puts into the new object only values that went through copy.deepcopy "
@@ -373,6 +375,7 @@ def run(ctx):
     from checks.shared import getstate_complete
     getstate_complete(ctx, "R17.l")
     reduce_hooks_build_new_objects(ctx, "R17.r")
+    subclasses_save_the_state_unchanged(ctx, "R17.u")
 
     # ---------------------------------------------------------------- R17.j
     hooks_ = [g for g in ctx.repo.all_funcs() if g.name in ("__deepcopy__", "__copy__") and g.cls is not None]
@@ -523,3 +526,56 @@ def reduce_hooks_build_new_objects(ctx, rule):
                      input="t = param.Time(); t(5); c = copy.deepcopy(holder_of(t)) -> the copy's clock is Dynamic.time_fn (time 0), advancing it moves the global clock")
         else:
             ctx.ok(rule, g, g.node, "%s.%s hands the state to a reconstructor (or delegates to super())" % (g.cls.name, g.name))
+
+
+_GETSTATE_EXAMPLE = '''
+class Gen(Parameterized):
+    def __getstate__(self):
+        state = super().__getstate__()
+        private = copy.copy(state['_param__private'])
+        private.values = dict(private.values, random_generator=type(self.random_generator)())
+        state['_param__private'] = private
+        return state
+'''
+
+
+def _state_rewrites(fnode):
+    out = []
+    for st in ast.walk(fnode):
+        targets = st.targets if isinstance(st, ast.Assign) else [st.target] if isinstance(st, (ast.AugAssign, ast.AnnAssign)) else []
+        for t in targets:
+            if isinstance(t, ast.Attribute) and t.attr in ("values", "params", "refs", "watchers"):
+                out.append(st)
+            if isinstance(t, ast.Subscript) and isinstance(t.slice, ast.Constant) and t.slice.value == "_param__private":
+                out.append(st)
+    return out
+
+
+def subclasses_save_the_state_unchanged(ctx, rule):
+    """A Parameterized subclass (param / numbergen) that defines its own __getstate__ hands on what Parameterized.__getstate__
+    saved for the parameter values, per-instance Parameters, references and watchers: it does not replace the private
+    namespace or its tables in the state -- a value swapped for a fresh object on the way out (a random generator without
+    its state) makes the copy differ from the original.  (Zero instances on the pinned tree; the matcher is exercised on an
+    embedded example on every run.)"""
+    ex = ast.parse(_GETSTATE_EXAMPLE).body[0].body[0]
+    if not _state_rewrites(ex):
+        raise AnalysisError("%s: the matcher no longer recognises the embedded example of a rewritten state" % rule)
+    P_ = "param.parameterized.Parameterized"
+    n, bad = 0, []
+    for g in ctx.repo.all_funcs():
+        if g.name != "__getstate__" or g.cls is None or g.cls.qualname == P_:
+            continue
+        # numbergen writes its bases as `param.Parameterized`: the package-qualified name is recognised by its text
+        chain = [ctx.repo.classes[q] for q in ctx.hier.mro(g.cls.qualname) if q in ctx.repo.classes]
+        if not (ctx.hier.is_subclass(g.cls.qualname, P_) or any(norm(b).rsplit(".", 1)[-1] in ("Parameterized", "ParameterizedFunction") for c in chain for b in c.node.bases)):
+            continue
+        n += 1
+        for st in _state_rewrites(g.node):
+            bad.append((g, st))
+    if bad:
+        g, st = bad[0]
+        ctx.fail(rule, g, st, "%s.__getstate__ rewrites the saved private state (`%s`): the copy / unpickled object does not hold the original's parameter values -- a value replaced by a fresh "
+                              "object (a random generator without its internal state) makes original and copy diverge as soon as that state matters" % (g.cls.name, norm(st)[:70]),
+                 key="%s::rewrites-the-saved-state" % g.qualname, input="g = UniformRandom(time_dependent=True); c = copy.deepcopy(g); both set time_dependent=False -> different streams")
+    else:
+        ctx.ok(rule, ctx.repo.func(P_ + ".__getstate__"), None, "no Parameterized subclass rewrites the saved private state in a __getstate__ of its own (%d override(s) examined; matcher checked on an embedded example)" % n)
